@@ -218,7 +218,8 @@ class C07(InputProp):
             if new:
                 viol.append({"sig": "invented|%s" % where(new[0]), "msg": "cleaning added %r; %r" % (new, text)})
             if not (lost or dup or new):
-                viol.append({"sig": "reordered|%s" % where(o2[0]), "msg": "reading order before %r, after %r; %r" % (o1, o2, text)})
+                first = next(a for a, b in zip(o1, o2) if a != b)  # the first word that is not where it was
+                viol.append({"sig": "reordered|%s" % where(first), "msg": "reading order before %r, after %r; %r" % (o1, o2, text)})
         else:
             for t in o1:
                 a, b = i1[t], i2[t]
